@@ -502,10 +502,15 @@ func (ex *Exec) applyContract(st *State, fr *Frame, sp *FuncSpec, fn *ssa.Functi
 	}
 	// the callee's own recorders are reset and rewritten by it
 	for _, l := range sp.Locals {
+		seen := false
 		for class := range classSorts {
-			if class == "G:$"+l.Name || strings.HasPrefix(class, "G:$"+l.Name+"@") || strings.HasPrefix(class, "G:$"+l.Name+".") {
+			if class == "G:$"+l.Name || strings.HasPrefix(class, "G:$"+l.Name+"@") || strings.HasPrefix(class, "G:$"+l.Name+".") || strings.HasPrefix(class, "G:$"+l.Name+"[") {
 				st.havocClass(class)
+				seen = true
 			}
+		}
+		if !seen {
+			st.HavPrefix = append(st.HavPrefix, "G:$"+l.Name)
 		}
 	}
 	{
